@@ -299,6 +299,10 @@ func session(c *vm.Ctx, r *vm.Rand, si int, sess *sessionServer) {
 	}
 	// handler set
 	ng, ns := r.Range(0, 6), r.Range(0, 6)
+	if r.Intn(4) == 0 {
+		// large handler sets with many priority ties (sorting algorithms change behaviour with size)
+		ng, ns = r.Range(0, 40), r.Range(0, 40)
+	}
 	watched := int32(r.Range(1, 123)) // the id with specific handlers
 	var specs []handlerSpec
 	prios := []int{-1, 0, 0, 1, 5}
@@ -661,6 +665,10 @@ func session(c *vm.Ctx, r *vm.Rand, si int, sess *sessionServer) {
 	if len(gs) > 1 || len(ss) > 1 {
 		c.Cover("dispatch.multiple-handlers")
 	}
+	if len(gs) > 12 || len(ss) > 12 {
+		c.Cover("dispatch.more-than-12-handlers-in-one-list")
+	}
+	c.EvalN(int64(seq)+int64(nC2S), vm.HashStr("packets", fmt.Sprint(c.Shard, si)), true)
 	if si < 2 {
 		c.Sample("session", wit())
 	}
